@@ -39,6 +39,11 @@ pub enum F1 {
     Abs,
     /// `f32::signum`: 1.0 for positive values and +0.0, -1.0 for negative values and -0.0, NaN for NaN
     Signum,
+    /// `f32::floor`, `ceil`, `trunc`, `round` (half away from zero)
+    Floor,
+    Ceil,
+    Trunc,
+    Round,
 }
 
 #[derive(Clone, Copy, Hash, PartialEq, Eq, Debug)]
@@ -158,6 +163,10 @@ impl Arena {
                     F1::Cosh => v.cosh(),
                     F1::Abs => v.abs(),
                     F1::Signum => v.signum(),
+                    F1::Floor => v.floor(),
+                    F1::Ceil => v.ceil(),
+                    F1::Trunc => v.trunc(),
+                    F1::Round => v.round(),
                 }
             }
         })
@@ -330,6 +339,10 @@ impl Sf32 {
                 F1::Cosh => x.cosh(),
                 F1::Abs => x.abs(),
                 F1::Signum => x.signum(),
+                F1::Floor => x.floor(),
+                F1::Ceil => x.ceil(),
+                F1::Trunc => x.trunc(),
+                F1::Round => x.round(),
             });
         }
         Sf32(with(|a| a.mk(Node::F(k, self.0))))
@@ -370,30 +383,6 @@ impl Sf32 {
             None => not_encodable("log10 of a symbolic value"),
         }
     }
-    pub fn floor(self) -> Sf32 {
-        match cv(self.0) {
-            Some(x) => c(x.floor()),
-            None => not_encodable("floor of a symbolic value"),
-        }
-    }
-    pub fn ceil(self) -> Sf32 {
-        match cv(self.0) {
-            Some(x) => c(x.ceil()),
-            None => not_encodable("ceil of a symbolic value"),
-        }
-    }
-    pub fn round(self) -> Sf32 {
-        match cv(self.0) {
-            Some(x) => c(x.round()),
-            None => not_encodable("round of a symbolic value"),
-        }
-    }
-    pub fn trunc(self) -> Sf32 {
-        match cv(self.0) {
-            Some(x) => c(x.trunc()),
-            None => not_encodable("trunc of a symbolic value"),
-        }
-    }
     pub fn to_bits(self) -> u32 {
         match self.0 {
             R::C(b) => b,
@@ -414,6 +403,21 @@ impl Sf32 {
     }
     pub fn signum(self) -> Sf32 {
         self.f1(F1::Signum)
+    }
+    pub fn floor(self) -> Sf32 {
+        self.f1(F1::Floor)
+    }
+    pub fn ceil(self) -> Sf32 {
+        self.f1(F1::Ceil)
+    }
+    pub fn trunc(self) -> Sf32 {
+        self.f1(F1::Trunc)
+    }
+    pub fn round(self) -> Sf32 {
+        self.f1(F1::Round)
+    }
+    pub fn fract(self) -> Sf32 {
+        self - self.trunc()
     }
     /// `powi`: a product in evaluation order (`x`, `x*x`, `(x*x)*x`, …) — LLVM lowers `powi(x, 2)`
     /// to `x*x`; for n > 2 the association order is a stated modelling assumption.
@@ -1175,7 +1179,7 @@ impl Differ {
                             let cnd = with(|a| a.mkc(Cond::Lt(x, R::C(0.0f32.to_bits()))));
                             ite(cnd, -dx, dx)
                         }
-                        F1::Signum => c(0.0),
+                        F1::Signum | F1::Floor | F1::Ceil | F1::Trunc | F1::Round => c(0.0),
                     }
                 }
             }
@@ -1289,6 +1293,10 @@ pub fn eval(e: Sf32, env: &HashMap<String, f32>, memo: &mut HashMap<R, f32>) -> 
                 F1::Cosh => v.cosh(),
                 F1::Abs => v.abs(),
                 F1::Signum => v.signum(),
+                    F1::Floor => v.floor(),
+                    F1::Ceil => v.ceil(),
+                    F1::Trunc => v.trunc(),
+                    F1::Round => v.round(),
             }
         }
     };
